@@ -510,6 +510,11 @@ func Settle() {
 		return
 	}
 	me := curT
+	for i := int32(0); i < nthreads; i++ {
+		if o := threads[i]; o != me && !o.exited && o.wk == wSettle {
+			endExec(EndDiverge, "infra", "two harness threads are in Settle at the same time (scenario bug)")
+		}
+	}
 	me.wk = wSettle
 	block(me, OpSettle)
 }
